@@ -14,8 +14,8 @@ import (
 
 func init() {
 	fw.Register(&fw.Property{
-		ID:    "C09",
-		Level: "exploration",
+		ID:     "C09",
+		Level:  "exploration",
 		Jitter: true,
 		Rule: "random topranking inputs of C08 with 1-6 queries and 1-30 targets and C08's option sets; relation over observed runs: updown list derives the CSVs from the query and target alignments, and topranking under (fasta,fasta), (csv,csv), (csv,fasta), (fasta,csv) must give byte-identical output with one row per query in query-file order; a 5% sample goes through the binary with .csv/.fasta/.fa suffixes; " +
 			"distinct non-trivial = distinct (queries m, targets class, option mode, table) with m >= 2 or a mixed combination",
@@ -100,6 +100,27 @@ func runC09(c *fw.Ctx, idx int) fw.Result {
 		rp := w("ref.fasta", refTxt)
 		qf, tf := w("q.fa", qTxt), w("t.fasta", tTxt)
 		qc, tc := w("q.csv", qCSV), w("t.csv", tCSV)
+		// the CSV as users make it: `updown list -o file`, where the file may hold an earlier, longer list
+		for _, lf := range [][3]string{{"q.fa", "q.csv", qCSV}, {"t.fasta", "t.csv", tCSV}} {
+			op := filepath.Join(d, lf[1])
+			if fw.Mix(uint64(idx)+uint64(len(lf[0])))%2 == 0 {
+				os.WriteFile(op, []byte(lf[2]+staleContent(700)), 0644)
+				res.Count("binary_list_runs_over_existing_output_file", 1)
+			} else {
+				os.Remove(op)
+			}
+			br := fw.RunBin(c.Bin, []string{"updown", "list", "-r", rp, "-q", filepath.Join(d, lf[0]), "-o", op}, nil, nil, "", 60*time.Second)
+			res.Evals++
+			got, _ := os.ReadFile(op)
+			if br.TimedOut {
+				res.Inconclusive = append(res.Inconclusive, "binary watchdog fired")
+			} else if br.Exit != 0 || string(got) != lf[2] {
+				f := cloneFiles(files)
+				f["binary_list_output.csv"] = string(got)
+				res.Fail("binary-list-vs-inprocess", fmt.Sprintf("gofasta updown list -o %s (exit %d) does not leave the list the entry point produces in the file: %s", lf[1], br.Exit, firstDiff(lf[2], string(got))), f, []string{"updown", "list", "-o", lf[1]})
+			}
+			os.WriteFile(op, []byte(lf[2]), 0644)
+		}
 		base := []string{"updown", "topranking", "-r", rp}
 		for k, v := range map[string]int{"--size-total": o.SizeTotal, "--size-same": o.SizeSame, "--size-up": o.SizeUp, "--size-down": o.SizeDown, "--size-side": o.SizeSide, "--dist-all": o.DistAll, "--dist-up": o.DistUp, "--dist-down": o.DistDown, "--dist-side": o.DistSide, "--dist-push": o.DistPush} {
 			if v != 0 {
